@@ -27,8 +27,12 @@ suite_ok=true; [ -s $L/suite.log ] && suite_ok=false
 echo "   suite_ok=$suite_ok"
 echo "== checks against the change (scratch worktree $sc)"
 res=""
+# the checks of a frozen copy of /verif (taken when the round started) if /tmp/seed_verif_dir.txt names one: the
+# harnesses keep being edited while a round is processed, "caught at once" must refer to the state at round start
+vdir=/verif
+[ -f /tmp/seed_verif_dir.txt ] && vdir=$(cat /tmp/seed_verif_dir.txt)
 for p in $props; do
-  (cd /verif && VERIF_REPO=$sc timeout 1500 ./check $p --tier quick -noevidence > $L/check_$p.log 2>&1); rc=$?
+  (cd $vdir && VERIF_REPO=$sc timeout 1500 ./check $p --tier quick -noevidence > $L/check_$p.log 2>&1); rc=$?
   lab=$(grep -h "label=" $L/check_$p.log | sed 's/.*label=\([^ ]*\).*/\1/' | sort -u | head -4 | tr '\n' ' ')
   echo "   $p exit=$rc $lab"
   res="$res $p:exit=$rc[$lab]"
